@@ -62,6 +62,13 @@ c("c04b_flush_sorts_bucket", ["C04.b"], "flusher sorts each context bucket by ti
   [("src/engine/core/write/flusher.rs",
     "            total_count += bucket.len();",
     "            total_count += bucket.len();\n            bucket.sort_by_key(|e| e.timestamp);")])
+c("c04e_replay_unordered", ["C04.e"], "REPLAY loses its ORDER BY again",
+  [("src/command/types.rs", """                order_by: Some(OrderSpec {
+                    field: "event_id".to_string(),
+                    desc: false,
+                }),""", "                order_by: None,")])
+c("c04e_replay_by_timestamp", ["C04.e"], "REPLAY ordered by timestamp (second resolution) instead of event id",
+  [("src/command/types.rs", '                    field: "event_id".to_string(),', '                    field: "timestamp".to_string(),')])
 c("c05a_commit_despite_error", ["C05.a"], "process_batch ignores the compactor's error and commits",
   [("src/engine/core/compaction/compaction_worker.rs",
     "        let results = compactor\n            .run()\n            .await\n            .map_err(|e| CompactorError::ZoneWriter(e.to_string()))?;",
